@@ -305,3 +305,34 @@ Theorem C03_concat_atomic_enclosure :
   forall ps1 ps2, list_R _ _ (piece_R _ _ PP.TR) ps1 ps2 ->
   Arr3_R _ _ PP.TR (concat_atomic IOP d1 thr1 om1 bs1 ns1 ps1) (concat_atomic RO d2 thr2 om2 bs2 ns2 ps2).
 Proof. exact EnclC03.concat_atomic_enclosure. Qed.
+
+(* ------------------------------------------------------------------------------------------------
+   Semantic tie of the concatenation kernels (Proofs/KernelTieC03.v; docs/notes/kernel-tie.md): the terms translated on every
+   run from the CURRENT Python bodies by tools/kernel_extract.py are the model functions.  (which = 'total' of
+   calculate_control_matrix_from_atomic: C01_kernel_cm_atomic_is_source in Properties/C01.v.)
+   ------------------------------------------------------------------------------------------------ *)
+From FF Require Import Extracted.Kernels Proofs.KernelTieC03.
+
+Theorem C03_kernels_translated : kernel_untranslated_C03 = nil.
+Proof. exact kernels_translated_C03. Qed.
+
+Theorem C03_kernel_cm_atomic_pc_is_source : forall na nk no (phases : list (list (C (T:=R)))) (cms : list (Arr3 (T:=R)))
+    (Ls : list (list (list R))) g a k o,
+  (g < length cms)%nat -> (a < na)%nat -> (k < nk)%nat -> (o < no)%nat ->
+  a3get RO (nth g (cm_from_atomic_pc RO na nk no phases cms Ls) nil) a k o =
+  cm_atomic_pc_entry_src RO nk
+    (fun g' o' => nth o' (nth g' phases nil) (c0 RO))
+    (fun g' a' j o' => a3get RO (nth g' cms nil) a' j o')
+    (fun g' j k' => rget RO (nth g' Ls nil) j k') g a k o.
+Proof. exact cm_atomic_pc_is_source. Qed.
+Print Assumptions C03_kernel_cm_atomic_pc_is_source.
+
+Theorem C03_kernel_pc_ff_is_source : forall nk (Bpc : list (Arr3 (T:=R))) g h a b o,
+  pc_ff_entry RO nk Bpc g h a b o =
+  pc_ff_entry_src RO nk (fun g' a' k o' => a3get RO (nth g' Bpc nil) a' k o') g h a b o.
+Proof. exact pc_ff_is_source. Qed.
+
+Theorem C03_kernel_pc_ffgen_is_source : forall (Bpc : list (Arr3 (T:=R))) g h a b k l o,
+  pc_ff_gen_entry RO Bpc g h a b k l o =
+  pc_ffgen_entry_src RO (fun g' a' k' o' => a3get RO (nth g' Bpc nil) a' k' o') g h a b k l o.
+Proof. exact pc_ffgen_is_source. Qed.
